@@ -9,8 +9,8 @@ DEPS = {'C01': ['classes', 'simplify', 'shapes', 'lookup', 'values', 'insert'],
         'C07': ['classes', 'simplify', 'shapes', 'valid'],
         'C08': ['classes', 'lookup'],
         'C10': ['classes', 'valid'],
-        'C11': ['stack'],
-        'C12': ['stack'],
+        'C11': ['stack', 'stackadd'],
+        'C12': ['stack', 'stackadd'],
         'C13': ['classes', 'simplify', 'shapes']}
 
 GROUP_THEOREMS = {
@@ -27,6 +27,7 @@ GROUP_THEOREMS = {
                'global_slice_subset_is_model', 'insert_slice_interleave_is_model', 'insert_sample_interleave_is_model',
                'slice_step_is_model', 'get_changed_class_no_slice_dim_is_model'],
     'insert': ['change_class_is_model', 'reclassify_is_model', 'insert_slice_is_model', 'insert_non_slice_is_model', 'insert_sample_is_model'],
+    'stackadd': ['chk_congruent_is_model', 'add_dcm_is_model'],
     'data': ['file_idx_is_model', 'file_idx_volume_is_model', 'get_data_trim_is_model'],
 }
 
